@@ -87,6 +87,10 @@ pub fn model_run(case: &Arc<Case>) -> ModelOut {
     let runner = shuttle::Runner::new(SimScheduler::new(SchedSpec::Lowest, rec), cfg);
     let r = catch_unwind(AssertUnwindSafe(move || {
         runner.run(move || {
+            // the engine is used as a CALCULATOR below: make sure no question is the first engine call of
+            // this simulated process (whatever a first call does differently must not leak into the answers,
+            // which are memoised across cases)
+            let _ = catch_unwind(AssertUnwindSafe(|| execute("0", Context::new())));
             let mut calc = EngineCalc;
             let m = run_model(&c2, &mut calc);
             *o2.lock().unwrap() = Some(m);
